@@ -1,9 +1,9 @@
 (* nvref_c13: line protocol (same answer format as probes/vm_probe.c)
-     run <cfgbits9> <fuel> <hex bytes | ->   ->  <class>|<detail>|<module crc>|<stdout hex>
-   cfgbits = fx_sec fx_slen fx_fnrange fx_div fx_substr fx_print fx_arr fx_npop fx_ipop as 0/1 characters. *)
+     run <cfgbits10> <fuel> <hex bytes | ->   ->  <class>|<detail>|<module crc>|<stdout hex>
+   cfgbits = fx_sec fx_slen fx_fnrange fx_div fx_substr fx_print fx_arr fx_npop fx_ipop fx_strict as 0/1 characters. *)
 let cfg_of (s : ostring) : cfg =
   { fx_sec = s.[0] = '1'; fx_slen = s.[1] = '1'; fx_fnrange = s.[2] = '1'; fx_div = s.[3] = '1';
-    fx_substr = s.[4] = '1'; fx_print = s.[5] = '1'; fx_arr = s.[6] = '1'; fx_npop = s.[7] = '1'; fx_ipop = s.[8] = '1' }
+    fx_substr = s.[4] = '1'; fx_print = s.[5] = '1'; fx_arr = s.[6] = '1'; fx_npop = s.[7] = '1'; fx_ipop = s.[8] = '1'; fx_strict = s.[9] = '1' }
 let str_of_bytes (bs : n list) : ostring =
   let b = Buffer.create 16 in List.iter (fun x -> Buffer.add_char b (Char.chr (int_of_n x))) bs; Buffer.contents b
 let show_val (v : value) : ostring =
